@@ -2,6 +2,6 @@
 # Re-runs the relevant quick checks against every stored property-preserving
 # change (two at a time). Any ALARM is a false alarm of a check.
 cd /verif
-ls -d preserving/*/ | xargs -P 2 -I{} bash -c 'd={}; ids=$(python3 -c "import json;print(\" \".join(json.load(open(\"$d/meta.json\")).get(\"checks_run\",[\"C20\"])))"); ./eval_preserving.sh $d $ids 2>&1' | sort > /tmp/regress-preserving.out
+ls -d preserving/*/ | xargs -P 4 -I{} bash -c 'd={}; ids=$(python3 -c "import json;print(\" \".join(json.load(open(\"$d/meta.json\")).get(\"checks_run\",[\"C20\"])))"); ./eval_preserving.sh $d $ids 2>&1' | sort > /tmp/regress-preserving.out
 grep -c "^PASS" /tmp/regress-preserving.out
 grep -v "^PASS" /tmp/regress-preserving.out
